@@ -60,7 +60,12 @@ def code_lines(path):
     for i, l in enumerate(lines):
         t = l.strip()
         if t.startswith("#[cfg(test)]"):
-            break
+            # the test module ends the library code; `#[cfg(test)] #[macro_use] mod test_util;`
+            # near the top of lib.rs does not
+            nxt = " ".join(x.strip() for x in lines[i + 1:i + 3])
+            if "mod tests" in nxt:
+                break
+            continue
         if skip_next:
             # statement guarded by the hooks feature (may span lines until ';')
             if t.endswith(";") or t.endswith("}"):
@@ -215,7 +220,11 @@ def main():
     ap.add_argument("--seed", type=int, default=1)
     ap.add_argument("--out", default="/verif/seeded/campaign.json")
     ap.add_argument("--props", default=",".join(PROPS))
+    ap.add_argument("--files", default="", help="comma separated subset of FILES")
     a = ap.parse_args()
+    if a.files:
+        global FILES
+        FILES = a.files.split(",")
     muts = gen_mutants(REPO, a.count, a.seed)
     print(f"{len(muts)} mutants over {len(set(m['file'] for m in muts))} files", flush=True)
     queue = list(reversed(muts))
